@@ -105,27 +105,19 @@ Proof. exact c01_mpas_plain_rows. Qed.
 Print Assumptions C01_mpas_supplied_tables.
 
 (* ---- SCRIP ---- *)
-Theorem C01_scrip_faces : forall w cs, Forall (fun r => length r = w) cs ->
-  c01_faces_pos (FILL, FILL) (fst (c01_scrip cs w)) (snd (c01_scrip cs w)) = cs.
+(* was C01_scrip_padding_refuted before fix 5e414c62: cells padded by repeating their last corner *)
+Theorem C01_scrip_faces : forall w (faces : list (list (Z * Z))),
+  Forall (fun f => f <> [] /\ (length f <= w)%nat /\ NoDup f) faces ->
+  let cs := map (fun f => f ++ repeat (last f (FILL, FILL)) (w - length f)) faces in
+  c01_faces_pos (FILL, FILL) (fst (c01_scrip cs w)) (snd (c01_scrip cs w)) = faces
+  /\ std_table w (snd (c01_scrip cs w)).
 Proof. exact c01_scrip_faces. Qed.
 Print Assumptions C01_scrip_faces.
-
-Theorem C01_scrip_std : forall w cs, Forall (fun r => length r = w) cs ->
-  Forall (fun r => length r = w /\ Forall (fun x => 0 <= x < Z.of_nat (length (fst (c01_scrip cs w)))) r)
-         (snd (c01_scrip cs w)).
-Proof. exact c01_scrip_std. Qed.
-Print Assumptions C01_scrip_std.
 
 Theorem C01_scrip_nodes : forall w cs,
   NoDup (fst (c01_scrip cs w)) /\ forall p, In p (fst (c01_scrip cs w)) <-> In p (concat cs).
 Proof. exact c01_scrip_nodes. Qed.
 Print Assumptions C01_scrip_nodes.
-
-Theorem C01_scrip_padding_refuted :
-  exists cs, snd (c01_scrip cs 4) <> c01_std 4 [[0; 1; 2; 3]; [1; 4; 2]]
-             /\ map (fun r => length (corners r)) (snd (c01_scrip cs 4)) = [4%nat; 4%nat].
-Proof. exact c01_scrip_padding_refuted. Qed.
-Print Assumptions C01_scrip_padding_refuted.
 
 (* ---- Exodus ---- *)
 Theorem C01_exodus_single_block : forall n w faces, c01_wf_faces n w faces ->
